@@ -54,9 +54,14 @@ func (i *interpreter) symSelect(elems []value, idx symv) value {
 	tb := i.tb
 	w := kindBits(idx.k)
 	n := len(elems)
-	inRange := tb.bvCmp(opBVUlt, idx.t, tb.BV(w, uint64(n)))
-	if kindSigned(idx.k) {
-		inRange = tb.And(inRange, tb.bvCmp(opBVSle, tb.BV(w, 0), idx.t))
+	inRange := tb.tt
+	if w >= 64 || uint64(n) < (uint64(1)<<uint(w)) {
+		inRange = tb.bvCmp(opBVUlt, idx.t, tb.BV(w, uint64(n)))
+	}
+	// (a negative signed index is a huge unsigned value, so the unsigned
+	// comparison covers it whenever the comparison is needed at all)
+	if kindSigned(idx.k) && inRange.isTrue() {
+		inRange = tb.bvCmp(opBVSle, tb.BV(w, 0), idx.t)
 	}
 	if !i.branch(inRange) {
 		panic(runtimeErrorString(fmt.Sprintf("index out of range with length %d", n)))
